@@ -129,19 +129,19 @@ Fixpoint take_ccmds (n : nat) (a : list Z) : list ccmd * list Z :=
       | _ => ([], r2)
       end
   end.
-Fixpoint take_boxes (n : nat) (a : list Z) : list box * list Z :=
-  match n with
-  | O => ([], a)
-  | S n' => let '(b, r) := take_n 8 a in let '(l, rest) := take_boxes n' r in (box_of b :: l, rest)
+Fixpoint take_boxes (n : nat) (a : list Z) : list (bool * box) * list Z :=
+  match n, a with
+  | S n', fl :: a' => let '(b, r) := take_n 8 a' in let '(l, rest) := take_boxes n' r in ((zb fl, box_of b) :: l, rest)
+  | _, _ => ([], a)
   end.
-Fixpoint flat_events (l : list (@event ccmd box)) : list Z :=
+Fixpoint flat_events (l : list (@event ccmd (bool * box))) : list Z :=
   match l with
   | [] => []
-  | EProd p :: t => 0 :: out_box p ++ flat_events t
+  | EProd p :: t => 0 :: out_box (snd p) ++ flat_events t
   | ECons c :: t => 1 :: out_box (cm_ofm c) ++ flat_events t
   end.
 
-(* CMD interleave = 10 : ncons (ofm_box(8) ifm_box(8) pad_top pad_bottom)*ncons nprod (ofm_box(8))*nprod
+(* CMD interleave = 10 : ncons (ofm_box(8) ifm_box(8) pad_top pad_bottom)*ncons nprod (is_producer_stripe ofm_box(8))*nprod
                          -> (0 producer_ofm_box(8) | 1 consumer_ofm_box(8))* in emission order *)
 Definition run_interleave (a : list Z) : list Z :=
   match a with
